@@ -461,6 +461,29 @@ fn run(ctx: &mut Ctx) {
             canonical(ctx, &big, d, 1, l, &img);
         });
     }
+    // contents: descriptors that are entirely zero (a "nothing here" slot) in every position
+    ctx.bound("zero_descriptors", "maps of 1..=5 descriptors at strides 40, 48 and 64 where each descriptor is byte-marked or all zero (every combination): count, order and contents are decided by the lengths alone");
+    for d in [40u32, 48, 64] {
+        for n in 1..=5usize {
+            for mask in 0..(1u32 << n) {
+                let l = n * d as usize;
+                let mut img = image(d, 1, l);
+                for k in 0..n {
+                    if mask >> k & 1 == 1 {
+                        for b in &mut img[16 + k * d as usize..16 + (k + 1) * d as usize] {
+                            *b = 0;
+                        }
+                    }
+                }
+                let describe = || J::obj().set("body", "zero-descriptors").set("desc_size", d).set("descriptors", n).set("all_zero_mask", mask);
+                ctx.leaf(describe, |ctx| {
+                    ctx.state_direct();
+                    ctx.nontrivial();
+                    canonical(ctx, &arena, d, 1, l, &img);
+                });
+            }
+        }
+    }
     // histories
     let depth = if quick { 4 } else if ctx.dev_profile() { 5 } else { 6 };
     ctx.bound("histories", format!("all call sequences up to depth {} over {{next, nth(1), nth(7), len, size_hint, Debug, count/last/fold on clones}} on up to 2 handles plus clone, on desc_size {{40,48,64}} x 0..=3 descriptors and six invalid combinations", depth));
